@@ -2,9 +2,9 @@ SPECIFICATION MCSpec
 CONSTANTS
   C = 2
   MaxParts = 3
-  Amts = {1, 3, 4, 5}
-  Tots = {3, 4, 5}
-  Secs = {"ok", "flip", "other"}
+  Amts = {1, 2}
+  Tots = {4}
+  Secs = {"ok"}
   Cls = {"far"}
   RegAmt = 4
   RegMin = 0
@@ -12,16 +12,16 @@ CONSTANTS
   MPPT = 1
   MaxTicks = 1
   MaxBlocks = 0
-  MaxDev = 1
-  MaxOps = 6
+  MaxDev = 0
+  MaxOps = 5
   StaleClaim = FALSE
-  Flds = {"none"}
+  Flds = {"none", "o1", "o1b", "e1", "e1b", "e1o1", "e1e2", "o1o2", "o1e2"}
   Sks = {"no"}
   Ups = {FALSE}
   RegMeta = 0
-  ClaimKinds = {"claim"}
-  Bug = "none"
-  EmitMod = 1
+  ClaimKinds = {"claim", "claimk"}
+  Bug = "evenLater"
+  EmitMod = 1000000
 CONSTRAINT Bound
 VIEW View
 INVARIANT AllOrNothing
